@@ -1,10 +1,12 @@
 /- C16: decoded messages and encoded bytes never alias each other's memory.  The interpreter is value-semantic; aliasing is
-   expressed in the explicit memory model `FinProto.Alias`: reader bodies are micro-programs (make / readFull / toString / sub /
-   ret); every program without the `view` instruction returns a reference into a region allocated during the call, so no
-   later mutation of the buffer's backing array changes what it denotes; `view` provably aliases.  The facts obligations
-   (no unsafe/reflect import, no reader takes buf.Bytes()/buf.Next()) tie the Go readers to the copying programs. -/
+   expressed in the explicit memory model `FinProto.Alias`: the bodies of the functions that return text / bytes are
+   micro-programs (make / readFull / toString / sub / view / unsafeString / ret), one per return statement; a static taint
+   analysis (`Prog.retClean`) says whether the returned local can point into the buffer's backing array, and every clean
+   program provably returns a reference into a region allocated during the call, so no later mutation of the buffer's
+   backing array changes what it denotes; returning a `view` (or a sub-slice / unsafe string of one) provably aliases. -/
 import FinProto.Obl.SNoOpaque
 import FinProto.Props.AliasProofs
+import FinProto.Props.AliasTaint
 import FinProto.GenLock
 namespace FinProto.Obl
 open FinProto FinProto.Alias
@@ -13,15 +15,18 @@ theorem C16_readString_copying (len : Nat) : (progReadString len).copying = true
 theorem C16_readFixed_copying (n a b : Nat) : (progReadFixedStringTrimPadding n a b).copying = true :=
   progReadFixedStringTrimPadding_copying n a b
 theorem C16_readBasic_copying (w : Nat) : (progReadBasicType w).copying = true := progReadBasicType_copying w
-/-- every reader primitive of codec/binary_codec.go, as REGENERATED from the source, is a copying program -/
-theorem C16_readers_copying : Gen.readerProgs.all Alias.Prog.copying = true := by decide
+/-- every function of codec/binary_codec.go that returns text or bytes read from a buffer, as REGENERATED from the source
+    (one program per return statement, data flow followed through its locals): the returned local is statically clean -
+    it is a fresh allocation or a COPY (`string(buf.Next(n))` is fine; a view, a sub-slice of a view or an `unsafe.String`
+    of a view is not) -/
+theorem C16_readers_copying : Gen.readerProgs.all Alias.Prog.retClean = true := by decide
 
 /-- hence whatever a reader returns lives in memory allocated during the call, and no later overwrite, reset or reuse
     of the source buffer's backing array (`f` arbitrary) changes what it denotes -/
 theorem C16_readers_immune {p : Alias.Prog} (hp : p ∈ Gen.readerProgs) {s s' : Alias.State} {r : Alias.Ref}
     (hs : s.Initial) (hrun : Alias.run p s = some (r, s')) (f : List UInt8 → List UInt8) :
     Alias.observe (Alias.scribble s'.mem s.bufRegion f) r = Alias.observe s'.mem r :=
-  decode_immune (List.all_eq_true.mp C16_readers_copying p hp) hs hrun f
+  decode_immune_clean (List.all_eq_true.mp C16_readers_copying p hp) hs hrun f
 
 theorem C16_no_unrecognised_statement : Gen.env.noOpaque = true := gen_noOpaque
 
